@@ -9,8 +9,10 @@ Model of
     `resolve_within_root_for_write`,
     `ResourceStore::{add,get,exists,write_stream,path_for_id}`
                                                   (sdk/src/resource_store.rs)
-  * the `write_bytes` closure of `Reader::to_folder` (sdk/src/reader.rs) — `writeUnder`
-  * the entry-name handling of `Builder::old_from_archive` (sdk/src/builder.rs) — `archiveEntry`
+  * `Reader::to_folder` (sdk/src/reader.rs) — `toFolder`, its `write_bytes` closure — `exportRel`
+    (`writeUnder` is the closure as it was before it called `resolve_within_root_for_write`)
+  * the entry-name handling of `Builder::old_from_archive` (sdk/src/builder.rs), all three
+    branches (`resources/`, `manifests/`, `ingredients/<idx>/`) — `archiveEffects`
 over
   * a model of Unix `Path` (`components`, `is_absolute`, `join`, `parent`, `ancestors`,
     `starts_with`),
@@ -28,9 +30,10 @@ on UTF-8 `&str`s and on bytes. A `Path`/`PathBuf` is held as its list of raw
 same information as the byte string: `"" ↦ [""]`, `"/" ↦ ["",""]`, `"/a//b/" ↦
 ["","a","","b",""]`).
 
-Not modelled: the in-memory map of a `ResourceStore` (empty here: the base path is
-configured before anything is added), the `StoreResolver` chain (absent), permissions,
-hard links, concurrent modification of the tree between check and use.
+The in-memory map of a `ResourceStore` (`Cfg.mem`: what was added before the base path was
+set) is looked at first by `get`/`write_stream`/`exists`, as in the code.
+Not modelled: the `StoreResolver` chain (absent), permissions, hard links, concurrent
+modification of the tree between check and use.
 -/
 namespace C2pa.C29
 
@@ -193,6 +196,90 @@ def archiveEntry (name : Str) : Option (Except Err Str) :=
       | none => some (.error .bad)
       | some id => some (sanitize id)
   else none
+
+/-- `"manifests/"` -/
+def manifestsPrefix : Str := [109, 97, 110, 105, 102, 101, 115, 116, 115, 47]
+/-- `"ingredients/"` -/
+def ingredientsPrefix : Str := [105, 110, 103, 114, 101, 100, 105, 101, 110, 116, 115, 47]
+/-- `"manifest_data.c2pa"`: the identifier `Ingredient::set_manifest_data` makes up
+(`add_with("manifest_data", "application/c2pa", …)` on a store that does not hold it yet) -/
+def manifestDataKey : Str :=
+  [109, 97, 110, 105, 102, 101, 115, 116, 95, 100, 97, 116, 97, 46, 99, 50, 112, 97]
+
+/-- `str::parse::<usize>` (64 bit): an optional `+`, then at least one ASCII digit, no overflow -/
+def parseUsize (s : Str) : Option Nat :=
+  let ds := match s with
+    | 43 :: t => t
+    | _ => s
+  if ds = [] then none
+  else if ds.all (fun c => decide (48 ≤ c ∧ c ≤ 57)) then
+    let v := ds.foldl (fun a c => a * 10 + (c - 48)) 0
+    if v < 18446744073709551616 then some v else none
+  else none
+
+/-- which resource store an archive entry ends up in -/
+inductive StoreId
+  | builder | ingredient (i : Nat)
+  deriving DecidableEq, Repr
+
+/-- the `manifests/<label>` branch: the data goes, under a made-up identifier, to every
+ingredient whose `active_manifest` is a prefix of the label (with `_` read as `:`) -/
+def manifestTargets (ams : List (Option Str)) (label : Str) : List (StoreId × Str) :=
+  let l := label.map (fun c => if c = 95 then 58 else c)
+  (ams.zipIdx).filterMap fun (am, i) =>
+    match am with
+    | some a => if a.isPrefixOf l then some (StoreId.ingredient i, manifestDataKey) else none
+    | none => none
+
+/-- first `if` block of the loop body of `Builder::old_from_archive`: `resources/<id>…` -/
+def archResources (name : Str) : Except Err (List (StoreId × Str)) :=
+  match archiveEntry name with
+  | none => .ok []
+  | some (.error e) => .error e
+  | some (.ok key) => .ok [(StoreId.builder, key)]
+
+/-- second block: `manifests/<label>…` -/
+def archManifests (ams : List (Option Str)) (name : Str) : Except Err (List (StoreId × Str)) :=
+  if manifestsPrefix.isPrefixOf name ∧ name ≠ manifestsPrefix then
+    match sanitize name with
+    | .error e => .error e
+    | .ok _ =>
+      match (splitSlash name)[1]? with
+      | none => .error .bad
+      | some label =>
+        match sanitize label with
+        | .error e => .error e
+        | .ok _ => .ok (manifestTargets ams label)
+  else .ok []
+
+/-- third block: `ingredients/<index>/<id>…` (`<id>` may be missing or empty: the key is then `""`) -/
+def archIngredients (ams : List (Option Str)) (name : Str) : Except Err (List (StoreId × Str)) :=
+  if ingredientsPrefix.isPrefixOf name ∧ name ≠ ingredientsPrefix then
+    match sanitize name with
+    | .error e => .error e
+    | .ok _ =>
+      match ((splitSlash name)[1]?).bind parseUsize with
+      | none => .error .bad
+      | some idx =>
+        let id := ((splitSlash name)[2]?).getD []
+        match (if id ≠ [] then sanitize id else .ok []) with
+        | .error e => .error e
+        | .ok key => if idx ≥ ams.length then .error .bad else .ok [(StoreId.ingredient idx, key)]
+  else .ok []
+
+/-- Everything `Builder::old_from_archive` stores for one zip entry called `name` (other than
+`manifest.json`), as (store, identifier) pairs; `ams` = the `active_manifest` of each ingredient
+of the definition. `.error` = the archive is rejected. -/
+def archiveEffects (ams : List (Option Str)) (name : Str) : Except Err (List (StoreId × Str)) :=
+  match archResources name with
+  | .error e => .error e
+  | .ok e1 =>
+    match archManifests ams name with
+    | .error e => .error e
+    | .ok e2 =>
+      match archIngredients ams name with
+      | .error e => .error e
+      | .ok e3 => .ok (e1 ++ e2 ++ e3)
 
 /-! ### `normalize_lexically` -/
 
@@ -401,41 +488,52 @@ structure Cfg where
   base : Str
   /-- `resource_root`; `none` = defaults to `base` -/
   root : Option Str
+  /-- the in-memory map `resources` (what was added before the base path was set) -/
+  mem : List (Str × Str) := []
 
 def Cfg.baseSegs (c : Cfg) : Segs := splitSlash c.base
 def Cfg.rootSegs (c : Cfg) : Segs := splitSlash (c.root.getD c.base)
 
-inductive GetRes | found (c : Str) | notFound
+/-- `notFound what`: `Error::ResourceNotFound(what)` -/
+inductive GetRes | found (c : Str) | notFound (what : Str)
   deriving DecidableEq, Repr
 
 /-- `ResourceStore::get` -/
 def get (fs : FS) (c : Cfg) (id : Str) : GetRes :=
-  match resolveWithinRoot fs c.env c.baseSegs c.rootSegs id with
-  | .error _ => .notFound
-  | .ok path =>
-    match readFile fs c.env path with
-    | some v => .found v
-    | none => .notFound
+  match c.mem.lookup id with
+  | some v => .found v
+  | none =>
+    match resolveWithinRoot fs c.env c.baseSegs c.rootSegs id with
+    | .error _ => .notFound id
+    | .ok path =>
+      match readFile fs c.env path with
+      | some v => .found v
+      | none => .notFound (joinSlash path)
 
 inductive WsRes | ok (c : Str) | notFound | io
   deriving DecidableEq, Repr
 
 /-- `ResourceStore::write_stream` -/
 def writeStream (fs : FS) (c : Cfg) (id : Str) : WsRes :=
-  match resolveWithinRoot fs c.env c.baseSegs c.rootSegs id with
-  | .error _ => .notFound
-  | .ok path =>
-    match readFile fs c.env path with
-    | some v => .ok v
-    | none => .io
+  match c.mem.lookup id with
+  | some v => .ok v
+  | none =>
+    match resolveWithinRoot fs c.env c.baseSegs c.rootSegs id with
+    | .error _ => .notFound
+    | .ok path =>
+      match readFile fs c.env path with
+      | some v => .ok v
+      | none => .io
 
 /-- `ResourceStore::exists` -/
 def existsId (fs : FS) (c : Cfg) (id : Str) : Bool :=
-  match resolveWithinRoot fs c.env c.baseSegs c.rootSegs id with
-  | .error _ => false
-  | .ok path => existsP fs c.env path
+  if (c.mem.lookup id).isSome then true
+  else
+    match resolveWithinRoot fs c.env c.baseSegs c.rootSegs id with
+    | .error _ => false
+    | .ok path => existsP fs c.env path
 
-/-- `ResourceStore::path_for_id` -/
+/-- `ResourceStore::path_for_id` (does not look at the in-memory map) -/
 def pathForId (fs : FS) (c : Cfg) (id : Str) : Option Segs :=
   match resolveWithinRoot fs c.env c.baseSegs c.rootSegs id with
   | .error _ => none
@@ -454,21 +552,60 @@ def createAndWrite (fs : FS) (env : Env) (path : Segs) (data : Str) : AddRes × 
     | .error _ => (.io, fs1)
     | .ok fs2 => (.ok, fs2)
 
-/-- `ResourceStore::add` (base path configured) -/
+/-- `resolve_within_root_for_write(base, root, rel)?`, `create_dir_all(parent)?`, `write`:
+what `ResourceStore::add` does with the sanitized identifier, and what the `write_bytes`
+closure of `Reader::to_folder` does with the relative path (there `base = root =` the folder). -/
+def checkedWrite (fs : FS) (env : Env) (base root : Segs) (rel data : Str) : AddRes × FS :=
+  match resolveForWrite fs env base root rel with
+  | .error .io => (.io, fs)
+  | .error _ => (.bad, fs)
+  | .ok path => createAndWrite fs env path data
+
+/-- `ResourceStore::add` (base path configured; the in-memory map is not touched) -/
 def add (fs : FS) (c : Cfg) (id data : Str) : AddRes × FS :=
   match sanitize id with
   | .error _ => (.bad, fs)
-  | .ok sid =>
-    match resolveForWrite fs c.env c.baseSegs c.rootSegs sid with
-    | .error .io => (.io, fs)
-    | .error _ => (.bad, fs)
-    | .ok path => createAndWrite fs c.env path data
+  | .ok sid => checkedWrite fs c.env c.baseSegs c.rootSegs sid data
 
-/-- The `write_bytes` closure of `Reader::to_folder`: join, `create_dir_all(parent)`, `write`
-— no check besides what `uri_to_path` did to `rel`. (This is also what `add` did before it
-called `resolve_within_root_for_write`.) -/
+/-- The check-free join, `create_dir_all(parent)`, `write` — what the `write_bytes` closure of
+`Reader::to_folder` was before it called `resolve_within_root_for_write`, and what
+`ResourceStore::add` was before (defect F7). Kept for the refutation `unchecked_write_escapes`. -/
 def writeUnder (fs : FS) (env : Env) (dest : Segs) (rel data : Str) : AddRes × FS :=
   createAndWrite fs env (pathJoin dest (splitSlash rel)) data
+
+/-- the `write_bytes` closure of `Reader::to_folder(dest)` -/
+def exportRel (fs : FS) (env : Env) (dest : Segs) (rel data : Str) : AddRes × FS :=
+  checkedWrite fs env dest dest rel data
+
+/-- one exported item: `write_bytes(uri_to_path(uri, label)?, data)?` -/
+def exportItem (fs : FS) (env : Env) (dest : Segs) (uri : Str) (label : Option Str) (data : Str) :
+    AddRes × FS :=
+  match uriToPath uri label with
+  | .error _ => (.bad, fs)
+  | .ok rel => exportRel fs env dest rel data
+
+/-- `"manifest_store.json"` -/
+def manifestStoreJson : Str :=
+  [109, 97, 110, 105, 102, 101, 115, 116, 95, 115, 116, 111, 114, 101, 46, 106, 115, 111, 110]
+
+/-- the URI of data box `label` of claim `claim`:
+`"self#jumbf=/c2pa/<claim>/c2pa.databoxes/<label>"` -/
+def dataBoxUri (claim label : Str) : Str :=
+  selfJumbf ++ c2paPrefix ++ claim ++ 47 :: dataBoxes ++ 47 :: label
+
+/-- `Reader::to_folder(dest)` for a store holding one claim with one data box: `create_dir_all`
+of the folder, the two manifest files (contents `json`, `c2pa`), then the data box; stops at the
+first error. -/
+def toFolder (fs : FS) (env : Env) (dest : Segs) (json c2pa claim label data : Str) : AddRes × FS :=
+  match createDirAll fs env dest with
+  | (.error _, fs0) => (.io, fs0)
+  | (.ok _, fs0) =>
+    match exportRel fs0 env dest manifestStoreJson json with
+    | (.ok, fs1) =>
+      match exportRel fs1 env dest manifestDataKey c2pa with
+      | (.ok, fs2) => exportItem fs2 env dest (dataBoxUri claim label) (some claim) data
+      | r => r
+    | r => r
 
 /-! ### line protocol -/
 
@@ -512,10 +649,16 @@ def parseReq (toks : List String) : Req :=
   let nodes := if tree == "-" then [] else (tree.splitOn ";").filterMap (parseNode pre)
   let chain := (prefixesOf pre).map (fun p => (p, Kind.dir))
   let rootS := field toks "root"
+  let memS := field toks "mem"
+  let mem := if memS == "-" || memS == "" then [] else (memS.splitOn ",").filterMap fun e =>
+    match e.splitOn ":" with
+    | [k, v] => some (ofHex k, ofHex v)
+    | _ => none
   { fs := ⟨([], Kind.dir) :: chain ++ nodes⟩
     cfg := { env := { cwd := cwd, fuel := 4096 }
              base := ofHex (field toks "base")
-             root := if rootS == "none" then none else some (ofHex rootS) } }
+             root := if rootS == "none" then none else some (ofHex rootS)
+             mem := mem } }
 
 def kindStr : Kind → String
   | .dir => "d"
@@ -550,14 +693,24 @@ def handle (toks : List String) : String :=
   | "sanitize" :: rest => exceptStr (sanitize (ofHex (field rest "p")))
   | "uri" :: rest => exceptStr (uriToPath (ofHex (field rest "uri")) (optLabel (field rest "label")))
   | "archive" :: rest =>
-    match archiveEntry (ofHex (field rest "name")) with
-    | none => "ignored"
-    | some r => exceptStr r
+    let ams := (splitList (field rest "am") ",").map optLabel
+    match archiveEffects ams (ofHex (field rest "name")) with
+    | .error _ => "bad"
+    | .ok [] => "ignored"
+    | .ok effs =>
+      "ok:" ++ "+".intercalate (effs.map fun (st, key) =>
+        (match st with
+          | .builder => "b"
+          | .ingredient i => toString i) ++ "=" ++ hx key)
   | "export" :: rest =>
-    -- the data box URI of claim `claim`: "self#jumbf=/c2pa/<claim>/c2pa.databoxes/<label>"
     let claim := ofHex (field rest "claim")
-    let uri := selfJumbf ++ c2paPrefix ++ claim ++ 47 :: dataBoxes ++ 47 :: ofHex (field rest "label")
-    exceptStr (uriToPath uri (some claim))
+    exceptStr (uriToPath (dataBoxUri claim (ofHex (field rest "label"))) (some claim))
+  | "tofolder" :: rest =>
+    let r := parseReq rest
+    -- contents of the two manifest files: "J" and "C" (the harness canonicalises them so)
+    let (res, fs') := toFolder r.fs r.cfg.env r.cfg.baseSegs [74] [67] (ofHex (field rest "claim"))
+      (ofHex (field rest "label")) (ofHex (field rest "data"))
+    (match res with | .ok => "ok" | .bad => "bad" | .io => "io") ++ " diff=" ++ diffStr r.fs fs'
   | "normalize" :: rest => hx (renderComps (normalize (components (ofHex (field rest "p")))))
   | "components" :: rest =>
     ",".intercalate ((components (ofHex (field rest "p"))).map fun c =>
@@ -580,7 +733,7 @@ def handle (toks : List String) : String :=
     let r := parseReq rest
     match get r.fs r.cfg (ofHex (field rest "id")) with
     | .found c => "found:" ++ hx c
-    | .notFound => "nf"
+    | .notFound w => "nf:" ++ hx w
   | "ws" :: rest =>
     let r := parseReq rest
     match writeStream r.fs r.cfg (ofHex (field rest "id")) with
